@@ -39,6 +39,10 @@ CHECKS["C10"] = dict(text="Theorems (Coq): instructions_keep_requests (no instru
   ref="6 C10", technique="Coq proof (frame lemma over all handlers by a compositional tactic; induction over event interleavings) + correspondence", note=_TB + "; instruction atomicity is a modelling fact (one exec call per instruction in run()); handlers' own effects are part of the compared state")
 CHECKS["C14"] = dict(text="Theorems (Coq): mes_refines (the TRAPA #0 emulation of the model = the reference calls: write appends exactly the buffer's bytes once to the console and one stdout message and changes nothing else; set_handler installs H'5A000000+address for vectors 1-63 and ignores others; other numbers fail), write_reads_the_buffer (induction on the length), installed_vector_targets_handler. Correspondence: write calls over RAM/DRAM buffers, lengths 0-4096, UTF-8 with NUL/newline/backslash/multi-byte, console bytes captured from the emulator's stdout and the stdout message from the (scripted) control socket; set_handler for vectors 0-255 followed by a request, boundary and the handler's instructions.",
   ref="6 C14", technique="Coq proof (refinement of the monadic emulation to the reference calls) + correspondence", note=_TB + "; UTF-8 validity of the buffer is a precondition (generator), invalid UTF-8 is outside the claim")
+CHECKS["C13"] = dict(text="Theorems (Coq) about the model of run()'s loop body: accounting_and_sync (invariant: state_sum = 2,000,000 x #sync messages + residual, bus sees state_sum; every instruction advances the count by exactly its charge, the timer is fed the same amount, one sync message iff a multiple is passed), sync_once_per_multiple (count = floor(total/2,000,000)), run_stops_at_exit, run_propagates_error, charge_bounded (over all handlers), instructions_leave_time_base. Host-speed independence is partial: no clock appears in the model; the real scheduler / spin_sleep is exercised only by running. Correspondence: generated terminating programs (blocks, counted and nested loops, calls, port writes, console output, failing opcodes; long loops crossing 1-3 sync thresholds) through the real Cpu::run with a scripted socket, against the reference run loop: registers, memory, state count, console and the whole message sequence.",
+  ref="6 C13", technique="Coq proof (loop invariant per iteration, frame lemma over all handlers) + correspondence; partial for host-speed independence", note=_TB + "; PARTIAL: independence from host load / pacing sleeps is outside any executable model")
+CHECKS["C18"] = dict(text="Theorems (Coq) about the model of the line dispatch and of the send worker's escaping: batching_irrelevant (any partition of the received lines into polling batches = processing the whole sequence), stop_absorbs, unknown_lines_ignored, commands (pause/start/stop), unescape_escape and escape_one_line (induction on the byte list). The reader/writer threads, mpsc ordering and TCP delivery are runtime behaviour outside the model (partial). Correspondence: random sequences of well-formed and malformed lines under three polling schedules through the real run() with the scripted socket: memory, port inputs, announcements, stop/pause behaviour against the model of the fixed dispatch.",
+  ref="6 C18", technique="Coq proof (fold over lines, induction on byte lists) + correspondence of the dispatch under polling schedules; partial for threads/TCP", note=_TB + "; PARTIAL: thread scheduling, channel ordering and TCP framing are exercised only through the scripted socket hook")
 NOT_APPLICABLE = []
 
 def main():
